@@ -15,6 +15,10 @@ def run(chk, replay=None):
     for i, c in enumerate(pick): settings[f"c{i}:" + "".join(str(int(c[f])) for f in FLAGS)] = c
     variants = {}
     for name, s in settings.items(): variants[name] = dict(drive="reset_step", record=dict(s))
+    # per-node settings (the documented dict form): what is recorded for one node is what was asked for THAT node
+    variants["pernode"] = dict(drive="reset_step", record=dict(params=False, inputs=True, rng={"n0": True, "n1": False, "n2": True, "n3": False},
+                                                                 state={"n0": False, "n1": True, "n2": True, "n3": False},
+                                                                 output={"n0": True, "n1": True, "n2": False, "n3": True}))
     variants["max1"] = dict(drive="reset_step", record=dict(settings["all"], max_records=1))
     variants["max3"] = dict(drive="run", record=dict(settings["all"], max_records=3))
     n = 4 if quick else 10
@@ -89,10 +93,14 @@ def run(chk, replay=None):
                     for k in range(min(T, len(c["out"])) - 1):
                         if c["state"][k + 1] != c["out"][k]:
                             chk.violation("state-chain-broken", f"{nname}: state before step {k + 1} is {c['state'][k + 1]}, step {k} returned {c['out'][k]}", dict(cfg=cfg)); break
-                # switched-off fields must be absent
+                # switched-off parts are absent, requested parts are present - per node
                 for fld, key in (("state", "state"), ("output", "out"), ("rng", "rng"), ("inputs", "wins")):
-                    if not rec.get(fld, False) and key in c:
-                        chk.violation("record-setting-ignored", f"{nname}: field {fld} recorded although switched off ({vn})", dict(cfg=cfg))
+                    asked = rec.get(fld, False); asked = asked.get(nname, False) if isinstance(asked, dict) else asked
+                    if not asked and key in c:
+                        chk.violation("record-setting-ignored", f"{nname}: part '{fld}' recorded although switched off for this node ({vn})", dict(cfg=cfg, setting=rec))
+                    if fld == "inputs" and not any(cc["in"] == nname for cc in cfg["conns"].values()): continue     # a node without inputs has nothing to record there
+                    if asked and key not in c and T > 0:
+                        chk.violation("requested-part-not-recorded", f"{nname}: part '{fld}' was requested for this node ({vn}) but is missing from its record", dict(cfg=cfg, setting=rec))
         # (3) the recorded scheduling terms are the ones the step's start was computed from
         from . import async_checks as ac
         if not eps["all"]["record"].get("unavailable"):
